@@ -102,7 +102,8 @@ theorem mintAux_services : ∀ (f : Nat) (b : Bus), (mintAux f b).1.services = b
 theorem services_leaves : Leaves (keeps ServicesInv) where
   refl := fun _ h => h
   trans := fun _ _ _ h1 h2 h => h2 (h1 h)
-  pending := fun _ _ h => h
+  gate := fun _ _ _ _ _ h => h
+  forget := fun _ _ h => h
   acquire := by
     intro t c n flags h
     unfold acquire
